@@ -193,3 +193,5 @@ def rules(ctx):
     neg_slice(ctx)
     lock(ctx)
     order(ctx)
+    from . import common_alias as _CA
+    _CA.shallow_copy_mutation(ctx, "C13.shallow-copy", ("tdm/utils.py", "tdm/program.py"))
